@@ -1,6 +1,7 @@
 use bit_vec::BitVec;
 use itertools::Itertools;
 use num_complex::{Complex, Complex64};
+use rand::rngs::OsRng;
 use rand::{rngs::StdRng, thread_rng, Rng, RngCore, SeedableRng};
 
 use crate::{
@@ -463,7 +464,12 @@ pub fn sign<const N: usize>(m: &[u8], sk: &SecretKey<N>) -> Signature<N> {
     #[cfg(falcon_rust_verif)]
     let mut rng = crate::verif_hooks::ambient_entropy(rng);
     let mut r = [0u8; 40];
-    rng.fill_bytes(&mut r);
+    // The salt comes straight from the operating system. `thread_rng` buffers
+    // its output in user space, and a process that forks after it has signed
+    // hands the same buffered bytes - hence the same salt - to the parent and
+    // to the child.
+    let mut salt_rng = OsRng;
+    salt_rng.fill_bytes(&mut r);
 
     let params = FalconVariant::from_n(N).parameters();
     let bound = params.sig_bound;
